@@ -156,3 +156,138 @@ class S8(Sim):
         res.update(rows=len(expected), parse_checks=self.parse_checks, header_recreations=self.recreations, lock_contentions=self.overlaps,
                    collections=sum(1 for h in self.hist if h["k"] == "ret" and h.get("op") == "collect"), history_events=len(self.hist))
         return res
+
+
+# ---------------------------------------------------------------------------------------------------------------
+# free-running mode (thorough tier): no scheduler, real parallel processes, real clocks.  Covers the one thing the
+# serialized model treats as atomic (open -> write -> close of a file, marker creation) with the same exactly-once oracle.
+def free_run(args, ctx, wdir):
+    import json
+    import logging
+    import random
+    import shutil
+    import time
+
+    os.environ["JADE_REGISTRY"] = ctx["registry"]
+    logging.disable(logging.CRITICAL)
+    from jade.jobs.results_aggregator import ResultsAggregator
+    from jade.result import Result
+
+    rng = random.Random(args["seed"])
+    violations = []
+    hashes, nt = [], []
+    samples = []
+    tot_rows = tot_coll = 0
+    for case in range(args["count"]):
+        wd = os.path.join(wdir, "c08free")
+        shutil.rmtree(wd, ignore_errors=True)
+        os.makedirs(os.path.join(wd, "out", "results"))
+        cwd = os.getcwd()
+        os.chdir(wd)
+        try:
+            ResultsAggregator.create("out")
+            nb = rng.randint(1, 3)
+            writers = [(b, w, rng.randint(5, 40)) for b in range(1, nb + 1) for w in range(rng.randint(1, 3))][:6]
+            ncoll = rng.randint(1, 3)
+            expected = {}
+            for b, w, n in writers:
+                for i in range(n):
+                    r = expected_row(b, w, i)
+                    expected[r[0]] = r
+            pids = []
+            for b, w, n in writers:
+                pid = os.fork()
+                if pid == 0:
+                    try:
+                        for i in range(n):
+                            e = expected_row(b, w, i)
+                            ResultsAggregator.append("out", Result(e[0], e[1], e[2], e[3], completion_time=e[4], hpc_job_id=e[5]), batch_id=b)
+                            if i % 7 == 3:
+                                time.sleep(0.001)
+                    finally:
+                        os._exit(0)
+                pids.append(pid)
+            cpids = []
+            for c in range(ncoll):
+                pid = os.fork()
+                if pid == 0:
+                    code = 0
+                    try:
+                        agg = ResultsAggregator.load("out")
+                        got = []
+                        last = False
+                        while True:
+                            res = agg.process_results()
+                            got.append([[x.name, x.return_code, x.status, x.exec_time_s, x.completion_time, x.hpc_job_id] for x in res])
+                            if last:
+                                break
+                            if os.path.exists("stop"):
+                                last = True
+                            time.sleep(0.002)
+                        json.dump(got, open(f"collected_{c}.json", "w"))
+                    except BaseException as e:  # noqa
+                        open(f"collector_{c}.err", "w").write(repr(e))
+                        code = 1
+                    finally:
+                        os._exit(code)
+                cpids.append(pid)
+            for pid in pids:
+                os.waitpid(pid, 0)
+            open("stop", "w").close()
+            failed = []
+            for pid in cpids:
+                _, st = os.waitpid(pid, 0)
+                if st != 0:
+                    failed.append(st)
+            desc = {"writers": writers, "collectors": ncoll, "rows": len(expected)}
+
+            def viol(key, text):
+                violations.append({"prop": "C08", "key": key, "text": f"free-running: {text} | case {json.dumps(desc)}", "step": 0, "epoch": 0})
+
+            if failed:
+                errs = [open(f).read() for f in os.listdir(".") if f.endswith(".err")]
+                viol("collector-failed", f"a collector process failed: {errs[:2]}")
+            final = ResultsAggregator.load("out").process_results()
+            rounds = [[[x.name, x.return_code, x.status, x.exec_time_s, x.completion_time, x.hpc_job_id] for x in final]]
+            ncollections = 0
+            for c in range(ncoll):
+                try:
+                    got = json.load(open(f"collected_{c}.json"))
+                    rounds += got
+                    ncollections += len(got)
+                except (OSError, ValueError):
+                    pass
+            names = [r[0] for rd in rounds for r in rd]
+            missing = sorted(set(expected) - set(names))
+            dup = sorted({n_ for n_ in names if names.count(n_) > 1})
+            extra = sorted(set(names) - set(expected))
+            if missing:
+                viol("row-lost", f"{len(missing)} appended rows never reported by any collection, e.g. {missing[:5]}")
+            if dup:
+                viol("row-reported-twice", f"{len(dup)} rows reported by more than one collection, e.g. {dup[:5]}")
+            if extra:
+                viol("row-from-nowhere", f"rows nobody appended: {extra[:5]}")
+            for rd in rounds:
+                for r in rd:
+                    e = expected.get(r[0])
+                    if e is not None and [r[0], int(r[1]), r[2], float(r[3]), float(r[4]), str(r[5])] != e:
+                        viol("row-fields", f"row {r} differs from what was appended {e}")
+            lst = ResultsAggregator.list_results("out")
+            if sorted(x.name for x in lst) != sorted(expected):
+                viol("consolidated-differs", f"consolidated results hold {len(lst)} rows, {len(expected)} were appended")
+            txt = open("out/processed_results.csv").read()
+            if txt and not txt.endswith("\n"):
+                viol("partial-line", "consolidated file ends with a partial line")
+            h = f"{args['seed']}:{case}"
+            hashes.append(h)
+            if ncollections >= 5 and len(writers) >= 2:
+                nt.append(h)
+            tot_rows += len(expected)
+            tot_coll += ncollections
+            if len(samples) < 1:
+                samples.append(dict(desc, mode="free-running", collections=ncollections))
+        finally:
+            os.chdir(cwd)
+            shutil.rmtree(wd, ignore_errors=True)
+    return {"violations": violations[:50], "cases": len(hashes), "case_hashes": hashes, "nontrivial_hashes": nt, "samples": samples, "rows": tot_rows, "collections": tot_coll, "free_running": True, "error": None,
+            "sig": f"free{args['seed']}"}
